@@ -58,6 +58,8 @@ class Sched:
         self.change_points = set()
         self.events = []             # (event line, real observation) for the Lean replay
         self.observer = None
+        self.races = []
+        self.client = None
 
     # ---------------------------------------------------------------- abstract events (replayed through the Lean models)
     def tid(self, st=None):
@@ -67,12 +69,15 @@ class Sched:
         n = st.name
         return 0 if n == "loop" else 1 if n == "ctl" else 2 + int(n[3:])
 
-    def ev(self, *words):
+    def ev(self, *words, as_tid=None):
         """record one shared-memory event of the running thread, with the real state right after it
         (`self.observer(group, tid, words)`, set by the harness)"""
-        t = self.tid()
+        t = self.tid() if as_tid is None else as_tid
         if t is None:
             return
+        me = self.me()
+        if me is not None:
+            self._check_single(me, "event " + " ".join(str(w) for w in words))
         o = self.observer(words[0], t, words[1:]) if self.observer is not None else "ok"
         self.events.append((f"{words[0]} {t} " + " ".join(str(w) for w in words[1:]), o))
 
@@ -191,10 +196,16 @@ class Sched:
                 raise Deadlock("aborted")
             return
 
+    def _check_single(self, st, where):
+        """only one registered thread runs at a time: the thread executing must be the one scheduled last"""
+        if self.decisions and st.name != self.decisions[-1] and self.failed is None:
+            self.races.append(f"{where}: {st.name} runs while {self.decisions[-1]} was scheduled")
+
     def yield_point(self, label):
         st = self.me()
         if st is None:
             return
+        self._check_single(st, "yield " + label)
         self.steps += 1
         if self.steps > self.max_steps:
             self.failed = self.failed or StepLimit(f"more than {self.max_steps} scheduling steps")
@@ -228,7 +239,10 @@ class Sched:
             return None
         co = frame.f_code
         if co.co_filename == self.client_file and co.co_name in TRACED:
-            return self._local
+            # only the client under test: a finaliser of an old Client run by the garbage collector inside some
+            # thread must not become a scheduling point in the middle of a shim
+            if self.client is None or frame.f_locals.get("self") is self.client:
+                return self._local
         return None
 
     def _local(self, frame, event, arg):
@@ -317,6 +331,8 @@ class SThread(threading.Thread):
             st.thread = self
             s.t["loop"] = st
             self._st = st
+            # loop_start(): the wake-up pipe exists, `_thread` is set: from here on the new thread is the only writer
+            s.ev("wk", "handover", as_tid=0)
         super().start()
 
     def run(self):
@@ -329,7 +345,6 @@ class SThread(threading.Thread):
         try:
             # a joiner waits for this thread as for a lock it holds from start to end
             s.ev("lk", "try", "thread-join")
-            s.ev("wk", "handover")
             super().run()
         except (Deadlock, StepLimit) as e:
             s.failed = s.failed or e
